@@ -213,7 +213,7 @@ Definition proc_reads (o : rid -> option err) (p : proc) : preads :=
                 (K_root, read_link (o RRoot) (p_root p) ENOENT);
                 (K_exec, read_link (o RExe2) (p_exe p) ENOENT)] ++ fd_items o p in
   match read_link (o RExe) (p_exe p) ENOENT with
-  | inr EACCES => PSkip
+  | inr EACCES | inr ESRCH => PSkip      (* inaccessible, or gone since /proc was listed *)
   | inr ENOENT => PReads anon items
   | inr _ => PFail
   | inl t => PReads (pathbase t) items
